@@ -1,5 +1,6 @@
 import Operon.Model.Proto
 import Operon.Model.Cascade
+import Operon.Model.CascadeObs
 /-! Line-protocol driver for the cascade model (C19). -/
 open Operon Operon.Proto Operon.Cascade
 
@@ -11,6 +12,7 @@ structure DSt where
   runs : Nat := 0                    -- `_runs_count`, `_successful_runs`, `_failed_runs` of get_statistics()
   okRuns : Nat := 0
   badRuns : Nat := 0
+  obs : Option StageObs := none       -- `on_stage_complete` script
 
 def mkStage (i : Nat) (cp pr eh : String) (req : Bool) (amp : Rat) : Stage Nat :=
   { checkpoint :=
@@ -45,6 +47,15 @@ def showEv : Ev Nat → String
 def step (st : DSt) (toks : List String) : DSt × String :=
   match toks with
   | ["cfg", h, m] => ({ cfg := ⟨boolOf h, ratOf m⟩, stages := [], names := [], made := 0 }, "ok")
+  | ["cfg", h, m, _mode] => ({ cfg := ⟨boolOf h, ratOf m⟩, stages := [], names := [], made := 0 }, "ok")  -- run() ignores the mode
+  | ["observer", k] =>
+    let o : Option StageObs :=
+      if k = "none" then none
+      else if k = "ok" then some fun _ => .ok ()
+      else if k = "always" then some fun _ => .raise
+      else some fun i => if i == natD ((k.drop 3).toString) then .raise else .ok ()      -- at:<i>
+    ({ st with obs := o }, "ok")
+  | "shadow" :: _ => (st, "ok")          -- another cascade object is created next to this one: must not matter
   | ["mapk", h, m, a1, a2, a3] =>
     -- the shipped MAPKCascade preset; signals are abstracted to the tier they carry (0 = raw input, k = dict of tier k)
     let t1 : Stage Nat := ⟨none, fun _ => .ok 1, none, true, ratOf a1⟩
@@ -69,14 +80,15 @@ def step (st : DSt) (toks : List String) : DSt × String :=
     | some i => ({ st with stages := st.stages.eraseIdx i, names := st.names.eraseIdx i }, "1")
     | none => (st, "0")
   | ["run", x] =>
-    let r := result st.cfg st.stages (natD x)
+    let ro := resultO st.cfg st.obs st.stages (natD x)
+    let r := ro.1
     let fin := match r.final with | some v => s!"some:{v}" | none => "none"
     ({ st with runs := st.runs + 1, okRuns := st.okRuns + (if r.success then 1 else 0),
                badRuns := st.badRuns + (if r.success then 0 else 1) },
      joinSp [showBool r.success, fin, toString r.completed, toString r.total, showRat r.amplification,
       (match r.blockedAt with | some i => st.names.getD i "?" | none => "none"),
       showList (r.results.map fun x => s!"{x.idx}{showStatus x.status}:{showRat x.factor}"),
-      showList (r.log.map showEv)])
+      showList (r.log.map showEv), showList (ro.2.map toString)])
   | ["stats"] => (st, s!"{st.stages.length} {st.runs} {st.okRuns} {st.badRuns}")
   | _ => (st, "bad-op")
 
